@@ -15,6 +15,7 @@ def run_programs(ctx, n, profile, oracle, label="prog", nontrivial=None, name="c
     agree = 0
     for case, mo in zip(cases, model):
         real, rt = sysinterp.run_case(case)
+        oracle(ctx, case, real, rt)
         st = sysgen.stats(case["prog"])
         nt = nontrivial(case, real, st) if nontrivial else (st["depth"] >= 2 and len(real["offered"]) >= 3)
         ctx.case(case, nontrivial=nt, tags=["depth:%d" % min(st["depth"], 6)] + ["op:" + o for o in st["ops"]], sample=(st["stmts"] <= 8))
@@ -39,7 +40,6 @@ def run_programs(ctx, n, profile, oracle, label="prog", nontrivial=None, name="c
         else:
             agree += 1
             ctx.traces += 1
-        oracle(ctx, case, real, rt)
     if name not in ctx.broken:
         ctx.obligation(name, "correspondence", True, "%d programs: real eliot and Lean model agree on every destination's offered/accepted sequence, outcome, context probes" % agree)
     return cases
